@@ -22,7 +22,7 @@ from . import _orm_sess as F
 PROPERTY = "C46"
 LEVEL = "exploration"
 RULE = (
-    "programs over 1-3 Parent rows and 0-3 Child rows: 1-4 epochs, each = external UPDATE/DELETE/INSERT/re-parent through an independent "
+    "programs over 1-3 Parent rows and 0-3 Child rows: 2-4 epochs, each = external UPDATE (one or all columns) / DELETE / re-INSERT / child re-parent through an independent "
     "connection (epochs >=1) + up to 8 session ops (read attr, set attr, expire(obj[,attrs]), expire_all, refresh(obj[,attrs]), select with/without "
     "populate_existing, flush) + commit|rollback; session config autoflush x expire_on_commit drawn. Non-trivial: at least one read whose expected "
     "value is only right if reload/no-reload is decided correctly (fresh value differs from the value held before, stale value differs from the "
